@@ -312,6 +312,14 @@ func cmdRun(args []string) {
 			limit = time.Duration(v) * time.Second
 		}
 		cfg.Deadline = time.Now().Add(limit)
+		// stress validation of the translator: VERIF_MAX_SAMPLES / VERIF_SAMPLE_EVERY widen the set of
+		// explored paths that are re-run natively and compared (default 6 per harness, every 13th..19th path)
+		if v, err := strconv.Atoi(os.Getenv("VERIF_MAX_SAMPLES")); err == nil && v > 0 {
+			cfg.MaxSamples = v
+		}
+		if v, err := strconv.Atoi(os.Getenv("VERIF_SAMPLE_EVERY")); err == nil && v > 0 {
+			cfg.SampleEvery = v
+		}
 		res := interp.Explore(cfg)
 		he := harnessEvidence{Harness: r.Entry, Args: r.Args, Bound: r.Bound, Paths: res.Stats.Paths, PathsByEnd: res.PathsByEnd,
 			Decisions: res.Stats.Decisions, Checks: res.Stats.Checks, CheckQueries: res.Stats.CheckQueries,
